@@ -426,6 +426,9 @@ func (self *visitorUserNode) OnObjectBegin(capacity int) error {
 				return err
 			}
 		}
+		// the field descriptor now lives on the stack: an object without (known) members must not
+		// be mistaken for a scalar value of that field when it ends
+		self.globalFieldDesc = nil
 	}
 	return err
 }
@@ -579,6 +582,8 @@ func (self *visitorUserNode) OnArrayBegin(capacity int) error {
 		if err = self.push(false, false, true, self.globalFieldDesc, curNodeLenPos); err != nil {
 			return err
 		}
+		// same for an empty array
+		self.globalFieldDesc = nil
 	}
 	return err
 }
